@@ -2,7 +2,14 @@
 from ..core import digest_of
 from .. import sched
 
-from ..net import valid_workloads_noreuse as valid  # noqa: E402,F401
+from ..net import valid_workloads_noreuse as _valid
+
+
+def valid(case):
+    # empty packets (size 0, zero transmission time) are legal for SP
+    c = dict(case)
+    c['workload'] = [[x[0], x[1], max(1, x[2])] + list(x[3:]) for x in case.get('workload', []) if len(x) >= 3]
+    return _valid(c) and all(x[2] >= 0 for x in case.get('workload', []) if len(x) >= 3)
 
 ID = 'C13'
 SHRINK_KEEP = ('rate', 'table', 'fmap', 'flows')
@@ -14,11 +21,17 @@ RULE = ('SP with 2-5 flows and positive priorities (ties allowed) under workload
 REAL = ['onl.scheduler.sp.SP', 'onl.scheduler.base', 'onl.sim kernel']
 STUBS = ['injector, taps, recording sink']
 ASSUMPTIONS = ['same-instant leniency: packets arriving at the very instant of a service start never cause an alarm']
-PROBES = ['ge2_levels_backlogged', 'urgent_arrival_during_lower_transmission']
+PROBES = ['empty_packets', 'ge2_levels_backlogged', 'urgent_arrival_during_lower_transmission']
 
 
 def gen(rng, tier):
     case = sched.gen_sched_case(rng, tier, kind='SP', monitor=False)
+    if rng.random() < 0.1:
+        # empty packets (keep-alives): zero bytes, zero transmission time
+        for x in case['workload']:
+            if rng.random() < 0.3:
+                x[2] = 0
+        case['empty_packets'] = True
     return case
 
 
@@ -34,6 +47,8 @@ def run(case):
     for cl, msg in vg:
         if cl in ('C13g.1', 'C13g.2'):
             viol.append(('C13.2', 'non-preemptive service: ' + msg))
+    if case.get('empty_packets'):
+        stats['empty_packets'] = 1
     res = {'viol': viol, 'digest': digest_of(r.w.log), 'nontrivial': bool(stats.get('ge2_levels_backlogged')),
            'stats': stats, 'simtime': float(r.w.env.now), 'steps': r.w.steps}
     if case.get('_excerpt'):
